@@ -765,6 +765,43 @@ def rule_expanded_indexer(ctx):
                         ctx.holds('R9', 'key (%s) ndim=%d' % (','.join(pat), ndim))
 
 
+def rule_axis_argument(ctx, rid='R10'):
+    """the numpy-like (indices, axis) form of _get_indices: for every kind of `axis` value the index is attached to that axis.
+    The guard of the `indices = {axis: indices}` statement is evaluated over a finite table of axis values (abstract interpretation
+    of one expression; nothing of the repository is executed)."""
+    import ast
+    from .. import absint
+    ctx.rule(rid, '_get_indices: (indices, axis=k) is rewritten to {k: indices} for every k other than 0 / None (negative positions and names included)', 7)
+    fi = ctx.fn(BASES + 'AbstractHasAxes._get_indices')
+    axis_p = 'axis'
+    site = None
+    for node in ast.walk(fi.node):
+        if isinstance(node, ast.If):
+            for st in node.body:
+                if isinstance(st, ast.Assign) and isinstance(st.value, ast.Dict) and len(st.value.keys) == 1 \
+                        and isinstance(st.value.keys[0], ast.Name) and st.value.keys[0].id == axis_p:
+                    site = node
+    if site is None:
+        ctx.undecide(rid, '_get_indices: the statement that rewrites (indices, axis) into {axis: indices} was not found')
+        return
+    # the statement must not be nested under another condition on axis
+    for v, want in ((None, False), (0, False), (1, True), (2, True), (-1, True), (-2, True), ('x0', True)):
+        it = absint.Interp({}, {})
+        try:
+            got = bool(it.truth(it.expr(site.test, {axis_p: v})))
+        except absint.Undecided as e:
+            ctx.undecide(rid, '_get_indices: guard `%s` not evaluable for axis=%r (%s)' % (ast.unparse(site.test), v, e))
+            continue
+        except absint.Raised as e:
+            got = None
+        if got != want:
+            ctx.violated(rid, fi, 'axis=%r' % (v,), 'with axis=%r the guard `%s` is %s: %s' % (
+                v, ast.unparse(site.test), got, 'the index is applied to the first dimension instead of dimension %r' % (v,) if want else
+                'the plain index is wrapped although no axis was designated'), node=site)
+        else:
+            ctx.holds(rid, 'axis=%r -> %s' % (v, 'attached to that axis' if want else 'plain index'))
+
+
 def check(ctx):
     rule_orthogonal_indexer(ctx)
     rule_expanded_indexer(ctx)
@@ -775,7 +812,8 @@ def check(ctx):
     rule_ortho(ctx)
     rule_bookkeeping(ctx)
     rule_subaxis(ctx)
+    rule_axis_argument(ctx)
     ctx.not_decided += ['that argsort + searchsorted + clip returns the right position for every present label (NumPy semantics)',
-                        'orthogonal_indexer.full_slices_unselected branch logic / np.ix_', 'first-match choice for duplicate labels']
+                        'first-match choice for duplicate labels']
     ctx.trusted += ['numpy.where/argmin/argsort/searchsorted/take documented semantics', 'CPython ast module']
     return EXPLANATION
